@@ -190,7 +190,116 @@ def o_history(case):
     return None
 
 
-ORACLES = {'history': o_history, 'demodulate': o_nearest, 'roundtrip': o_roundtrip, 'constellation': o_constellation,
+INT_DTYPES = ['uint8', 'int8', 'uint16', 'int16', 'uint32', 'int32', 'uint64', 'int64', 'bool']
+
+
+def layouts(a):
+    """the same logical array in several memory layouts (R2)"""
+    out = [('C', np.ascontiguousarray(a))]
+    if a.ndim >= 2:
+        out.append(('F', np.asfortranarray(a)))
+        out.append(('T', np.ascontiguousarray(a.T).T))
+        big = np.zeros(tuple(2 * n for n in a.shape), dtype=a.dtype)
+        big[tuple(slice(None, None, 2) for _ in a.shape)] = a
+        out.append(('strided', big[tuple(slice(None, None, 2) for _ in a.shape)]))
+        out.append(('reversed', np.ascontiguousarray(a[..., ::-1])[..., ::-1]))
+    return out
+
+
+def o_layout(case):
+    """R2/R3: demodulate / modulate on non-C-contiguous and empty arrays; inputs are not modified"""
+    m = make_mod(case['kind'], case['M'], case.get('phase', 0.0))
+    sym = np.asarray(m.symbols)
+    shape = tuple(case['shape'])
+    z = np.array([complex(*p) for p in case['samples']]).reshape(shape)
+    expect = np.array([brute_nearest(sym, zz)[0] for zz in z.ravel()]).reshape(shape)
+    gaps = np.array([brute_nearest(sym, zz)[1] for zz in z.ravel()]).reshape(shape)
+    for name, v in layouts(z):
+        keep = v.copy()
+        got = np.asarray(m.demodulate(v))
+        if got.shape != shape:
+            return 'layout:shape:' + name, 'demodulate returned shape %s for input %s' % (got.shape, shape)
+        bad = (got != expect) & (gaps >= 1e-9)
+        if case['kind'] != 'BPSK' and bad.any():
+            return 'layout:not-nearest:' + name, 'positions %s' % (np.argwhere(bad)[:3].tolist(),)
+        if not np.array_equal(v, keep):
+            return 'layout:input-modified:' + name, 'demodulate changed its argument'
+    idx = np.array(case['idx'], dtype=int).reshape(shape)
+    for name, v in layouts(idx):
+        keep = v.copy()
+        out = np.asarray(m.modulate(v))
+        if out.shape != shape or not np.array_equal(out, sym[idx] if case['kind'] != 'BPSK' else 1 - 2 * idx):
+            return 'layout:modulate:' + name, 'modulate misplaces symbols'
+        if not np.array_equal(v, keep):
+            return 'layout:input-modified:' + name, 'modulate changed its argument'
+        back = np.asarray(m.demodulate(out))
+        if not np.array_equal(back, idx):
+            return 'layout:roundtrip:' + name, 'round trip on layout %s' % name
+    return None
+
+
+def o_empty(case):
+    """R2/R5: arrays with a zero-length axis go through with their shape"""
+    m = make_mod(case['kind'], case['M'])
+    shape = tuple(case['shape'])
+    try:
+        out = np.asarray(m.modulate(np.zeros(shape, dtype=int)))
+        if out.shape != shape:
+            return 'empty:modulate-shape:' + case['kind'], str(out.shape)
+        back = np.asarray(m.demodulate(np.zeros(shape, dtype=complex if case['kind'] != 'BPSK' else float)))
+        if back.shape != shape:
+            return 'empty:demodulate-shape:' + case['kind'], str(back.shape)
+    except Exception as e:
+        return 'empty:raises:' + case['kind'], repr(e)[:200]
+    return None
+
+
+def o_dtype(case):
+    """R1: index arrays of every integer dtype (and numpy scalars) round trip"""
+    m = make_mod(case['kind'], case['M'])
+    dt = np.dtype(case['dtype'])
+    idx = np.array(case['idx']).astype(dt)
+    keep = idx.copy()
+    out = m.demodulate(m.modulate(idx))
+    if not np.array_equal(np.asarray(out).astype(int), np.array(case['idx']).astype(int)):
+        return 'dtype:roundtrip:%s:%s' % (case['kind'], 'unsigned' if dt.kind == 'u' else dt.kind), \
+            'index dtype %s: %s -> %s' % (dt, case['idx'][:6], np.asarray(out).ravel()[:6].tolist())
+    if not np.array_equal(idx, keep):
+        return 'dtype:input-modified:' + case['kind'], str(dt)
+    s0 = m.modulate(idx[0])      # numpy scalar index
+    if int(np.asarray(m.demodulate(np.asarray(s0))).ravel()[0]) != int(case['idx'][0]):
+        return 'dtype:scalar-roundtrip:%s:%s' % (case['kind'], 'unsigned' if dt.kind == 'u' else dt.kind), str(dt)
+    return None
+
+
+def o_output_independent(case):
+    """R3: arrays returned by earlier calls do not change when later calls are made"""
+    m = make_mod(case['kind'], case['M'], case.get('phase', 0.0))
+    idx = np.array(case['idx'], dtype=int)
+    a = m.modulate(idx)
+    a0 = np.array(a, copy=True)
+    d = m.demodulate(a)
+    d0 = np.array(d, copy=True)
+    b = m.modulate(idx[::-1].copy())
+    m.demodulate(np.asarray(b) * 0.9)
+    if case['kind'] == 'PSK':
+        m.setPhaseOffset(1.0)
+        m.demodulate(np.asarray(m.modulate(idx)))
+    if not np.array_equal(a, a0) or not np.array_equal(d, d0):
+        return 'output-changed-by-later-call:' + case['kind'], 'earlier result mutated'
+    sym0 = np.array(m.symbols, copy=True)
+    a = m.modulate(idx)
+    try:
+        a[...] = 0        # writing into a returned array must not reach the constellation
+    except (ValueError, TypeError):
+        pass
+    if not np.array_equal(m.symbols, sym0):
+        return 'output-aliases-constellation:' + case['kind'], 'modulate returned a view of symbols'
+    return None
+
+
+ORACLES = {'layout': o_layout, 'empty': o_empty, 'dtype': o_dtype, 'output': o_output_independent,
+           'history': o_history, 'demodulate': o_nearest, 'roundtrip': o_roundtrip, 'constellation': o_constellation,
            'constructor': o_reject, 'modulate.oob': o_oob}
 
 
@@ -352,6 +461,24 @@ def oracles(ctx, psk_max, qam_max, nsamp, reject_max):
             z = gen_samples(ctx.rng, m.symbols, 12, 'uniform')
             run_oracle(ctx, 'history', {'M': M, 'phase': phase, 'offsets': offs, 'idx': idx,
                                         'samples': [[c.real, c.imag] for c in z]}, key=('hist', M, phase != 0))
+        if M <= 64:
+            shape = ctx.rng.choice([[3, 4], [2, 3, 2], [4, 2]])
+            n = int(np.prod(shape))
+            z = gen_samples(ctx.rng, m.symbols, n, ctx.rng.choice(['near', 'uniform']))
+            run_oracle(ctx, 'layout', {'kind': kind, 'M': M, 'phase': phase, 'shape': shape,
+                                       'samples': [[c.real, c.imag] for c in z],
+                                       'idx': [ctx.rng.below(M) for _ in range(n)]}, key=('layout', kind, M, tuple(shape)))
+            for shp in ([0], [0, 3], [2, 0, 5]):
+                run_oracle(ctx, 'empty', {'kind': kind, 'M': M, 'shape': shp}, key=('empty', kind, M, tuple(shp)))
+            for dt in INT_DTYPES:
+                if dt == 'bool' and kind != 'BPSK':
+                    continue      # a boolean array is a mask, not an index array, for numpy indexing
+                hi = min(M, 2 if dt == 'bool' else (127 if dt == 'int8' else M))
+                run_oracle(ctx, 'dtype', {'kind': kind, 'M': M, 'dtype': dt,
+                                          'idx': [ctx.rng.below(hi) for _ in range(8)] + [hi - 1]},
+                           key=('dtype', kind, M, dt))
+            run_oracle(ctx, 'output', {'kind': kind, 'M': M, 'phase': phase,
+                                       'idx': [ctx.rng.below(M) for _ in range(6)]}, key=('output', kind, M))
         if kind != 'BPSK':
             run_oracle(ctx, 'modulate.oob', {'kind': kind, 'M': M, 'idx': [0, M]}, key=('oob', kind, M))
             run_oracle(ctx, 'modulate.oob', {'kind': kind, 'M': M, 'idx': [M + 5]}, key=('oob2', kind, M))
